@@ -6,8 +6,10 @@ import (
 	"bytes"
 	"encoding/json"
 	"fmt"
+	"reflect"
 	"sort"
 	"strconv"
+	"strings"
 
 	"github.com/cloudwego/eino/schema"
 )
@@ -15,9 +17,13 @@ import (
 // ---------------------------------------------------------------------------------------
 // C14 case language (shared with lean/EinoV/Oracle/C14.lean)
 //
-//   case   = {"kind":"msgs"|"cmsgs"|"maps"|"strs"|"marr","chunks":[chunk…]}
-//   value  = null | {"t":goType,"v":payload} | {"m":[[key,value],…]}       (input form)
-//   value' = null | {"t":goType,"v":payload} | {"m":{key:value',…}}         (output form)
+//   case   = {"kind":"msgs"|"cmsgs"|"maps"|"strs"|"marr"|"anys","chunks":[chunk…],"et":elemType?}
+//            ("et": element type of the map chunks of kind "maps"; absent = "any")
+//   value  = null | {"t":goType,"v":payload} | {"m":[[key,value],…],"e":elemType,"nil":bool?}   (input form)
+//   value' = null | {"t":goType,"v":payload} | {"m":{key:value',…},"e":elemType}                 (output form)
+//            "e" = Go name of the map's element type: "any", "string", "int", "float64", "c14S",
+//            "[]string", "map[string]string", …; "nil":true = a nil map of that type (the model
+//            and the output form identify it with the empty map)
 //   msg    = null | {"role","name","tcid","content","multi":[n…],"tcs":[tc…],"meta":meta,"extra":value}
 //   tc     = {"idx":null|int,"id","type","name","args","ex":n}
 //   meta   = null | {"finish","usage":null|[p,c,t],"lp":null|[n…]}
@@ -28,12 +34,21 @@ type c14KV struct {
 	V *c14Val
 }
 
-// c14Val: nil pointer = Go nil; M != nil or IsMap = nested map; otherwise scalar of Go type T.
+// c14Val: nil pointer = Go nil; IsMap = a map[string]E (E "" = any); otherwise scalar of Go type T.
 type c14Val struct {
 	T     string
 	V     string
 	IsMap bool
+	E     string // element type of the map ("" = "any")
+	Nil   bool   // a nil map (only honoured when M is empty)
 	M     []c14KV
+}
+
+func (v *c14Val) et() string {
+	if v.E == "" {
+		return "any"
+	}
+	return v.E
 }
 
 func (v *c14Val) MarshalJSON() ([]byte, error) {
@@ -58,7 +73,13 @@ func (v *c14Val) MarshalJSON() ([]byte, error) {
 			b.Write(x)
 			b.WriteByte(']')
 		}
-		b.WriteString("]}")
+		b.WriteString(`],"e":`)
+		e, _ := json.Marshal(v.et())
+		b.Write(e)
+		if v.Nil && len(v.M) == 0 {
+			b.WriteString(`,"nil":true`)
+		}
+		b.WriteString("}")
 		return b.Bytes(), nil
 	}
 	return json.Marshal(map[string]string{"t": v.T, "v": v.V})
@@ -78,6 +99,15 @@ func c14ParseVal(raw json.RawMessage) (*c14Val, error) {
 			return nil, err
 		}
 		out := &c14Val{IsMap: true}
+		if e, ok := probe["e"]; ok {
+			json.Unmarshal(e, &out.E)
+		}
+		if out.E == "any" {
+			out.E = ""
+		}
+		if n, ok := probe["nil"]; ok {
+			json.Unmarshal(n, &out.Nil)
+		}
 		for _, p := range pairs {
 			var k string
 			if err := json.Unmarshal(p[0], &k); err != nil {
@@ -124,19 +154,27 @@ type c14Meta struct {
 }
 
 type c14Msg struct {
-	Role    string          `json:"role"`
-	Name    string          `json:"name"`
-	TCID    string          `json:"tcid"`
-	Content string          `json:"content"`
-	Multi   []int           `json:"multi"`
-	TCs     []c14TC         `json:"tcs"`
-	Meta    *c14Meta        `json:"meta"`
+	Role    string   `json:"role"`
+	Name    string   `json:"name"`
+	TCID    string   `json:"tcid"`
+	Content string   `json:"content"`
+	Multi   []int    `json:"multi"`
+	TCs     []c14TC  `json:"tcs"`
+	Meta    *c14Meta `json:"meta"`
 	Extra   *c14Val  `json:"extra"` // a map value or nil
 }
 
 type c14Case struct {
 	Kind   string            `json:"kind"`
+	Et     string            `json:"et,omitempty"` // kind "maps": element type of the chunks ("" = any)
 	Chunks []json.RawMessage `json:"chunks"`
+}
+
+func (c *c14Case) et() string {
+	if c.Et == "" {
+		return "any"
+	}
+	return c.Et
 }
 
 func c14Raw(v any) json.RawMessage {
@@ -152,17 +190,52 @@ func c14Raw(v any) json.RawMessage {
 type c14S struct{ V string } // not registered, struct: zero ⇔ V == ""
 type c14L []string           // not registered, slice: zero ⇔ nil
 
-func c14ToGo(v *c14Val) any {
-	if v == nil {
-		return nil
+var c14AnyType = reflect.TypeOf((*any)(nil)).Elem()
+
+// c14GoType: the Go type named by an element-type name of the case language.
+func c14GoType(name string) reflect.Type {
+	if strings.HasPrefix(name, "map[string]") {
+		return reflect.MapOf(reflect.TypeOf(""), c14GoType(strings.TrimPrefix(name, "map[string]")))
 	}
-	if v.IsMap {
-		m := make(map[string]any, len(v.M))
-		for _, kv := range v.M {
-			m[kv.K] = c14ToGo(kv.V)
+	switch name {
+	case "any", "":
+		return c14AnyType
+	case "string":
+		return reflect.TypeOf("")
+	case "int":
+		return reflect.TypeOf(int(0))
+	case "int64":
+		return reflect.TypeOf(int64(0))
+	case "float64":
+		return reflect.TypeOf(float64(0))
+	case "bool":
+		return reflect.TypeOf(false)
+	case "c14S":
+		return reflect.TypeOf(c14S{})
+	case "*c14S":
+		return reflect.TypeOf((*c14S)(nil))
+	case "c14L":
+		return reflect.TypeOf(c14L(nil))
+	case "[]string":
+		return reflect.TypeOf([]string(nil))
+	}
+	panic("c14: unknown type " + name)
+}
+
+// c14TypeName: inverse of c14GoType ("!…" for a type outside the case language).
+func c14TypeName(t reflect.Type) string {
+	if t.Kind() == reflect.Map && t.Key().Kind() == reflect.String && t.Name() == "" {
+		return "map[string]" + c14TypeName(t.Elem())
+	}
+	for _, n := range []string{"any", "string", "int", "int64", "float64", "bool", "c14S", "*c14S", "c14L", "[]string"} {
+		if c14GoType(n) == t {
+			return n
 		}
-		return m
 	}
+	return "!" + t.String()
+}
+
+func c14ScalarToGo(v *c14Val) any {
 	switch v.T {
 	case "string":
 		return v.V
@@ -189,8 +262,44 @@ func c14ToGo(v *c14Val) any {
 			return c14L(nil)
 		}
 		return c14L{v.V}
+	case "[]string": // "" = nil, "-" = empty non-nil, otherwise one element
+		switch v.V {
+		case "":
+			return []string(nil)
+		case "-":
+			return []string{}
+		}
+		return []string{v.V}
 	}
 	panic("c14: unknown type " + v.T)
+}
+
+// c14ToGoRV builds the Go value of a non-nil c14Val (maps get their real map type).
+func c14ToGoRV(v *c14Val) reflect.Value {
+	if !v.IsMap {
+		return reflect.ValueOf(c14ScalarToGo(v))
+	}
+	et := c14GoType(v.et())
+	mt := reflect.MapOf(reflect.TypeOf(""), et)
+	if v.Nil && len(v.M) == 0 {
+		return reflect.Zero(mt)
+	}
+	m := reflect.MakeMapWithSize(mt, len(v.M))
+	for _, kv := range v.M {
+		if kv.V == nil {
+			m.SetMapIndex(reflect.ValueOf(kv.K), reflect.Zero(et)) // nil interface (zero value in an ill-typed case)
+			continue
+		}
+		m.SetMapIndex(reflect.ValueOf(kv.K), c14ToGoRV(kv.V))
+	}
+	return m
+}
+
+func c14ToGo(v *c14Val) any {
+	if v == nil {
+		return nil
+	}
+	return c14ToGoRV(v).Interface()
 }
 
 // c14Out renders a Go value produced by the implementation in the oracle's output form.
@@ -198,12 +307,6 @@ func c14Out(x any) any {
 	switch t := x.(type) {
 	case nil:
 		return nil
-	case map[string]any:
-		m := map[string]any{}
-		for k, v := range t {
-			m[k] = c14Out(v)
-		}
-		return map[string]any{"m": m}
 	case string:
 		return map[string]any{"t": "string", "v": t}
 	case int:
@@ -229,6 +332,25 @@ func c14Out(x any) any {
 			return map[string]any{"t": "c14L", "v": fmt.Sprint("!len=", len(t))}
 		}
 		return map[string]any{"t": "c14L", "v": t[0]}
+	case []string:
+		switch {
+		case t == nil:
+			return map[string]any{"t": "[]string", "v": ""}
+		case len(t) == 0:
+			return map[string]any{"t": "[]string", "v": "-"}
+		case len(t) == 1:
+			return map[string]any{"t": "[]string", "v": t[0]}
+		}
+		return map[string]any{"t": "[]string", "v": fmt.Sprint("!len=", len(t))}
+	}
+	rv := reflect.ValueOf(x)
+	if rv.Kind() == reflect.Map && rv.Type().Key().Kind() == reflect.String {
+		m := map[string]any{}
+		it := rv.MapRange()
+		for it.Next() {
+			m[it.Key().String()] = c14Out(it.Value().Interface())
+		}
+		return map[string]any{"m": m, "e": c14TypeName(rv.Type().Elem())}
 	}
 	return map[string]any{"t": fmt.Sprintf("!%T", x), "v": fmt.Sprint(x)}
 }
@@ -368,4 +490,20 @@ func c14SortKVs(v *c14Val) {
 	for _, kv := range v.M {
 		c14SortKVs(kv.V)
 	}
+}
+
+// c14HasTyped: the value holds a map whose element type is not any, at any depth.
+func c14HasTyped(v *c14Val) bool {
+	if v == nil || !v.IsMap {
+		return false
+	}
+	if v.et() != "any" {
+		return true
+	}
+	for _, kv := range v.M {
+		if c14HasTyped(kv.V) {
+			return true
+		}
+	}
+	return false
 }
